@@ -1,5 +1,354 @@
+//! C06 — dense output is continuous, matches the samples and covers exactly the span.
+
+use super::common::*;
 use crate::ctx::{Ctx, Meta};
+use crate::probe::*;
+use crate::problems::{Problem, Simple};
 use crate::report::Report;
+use crate::rng::Rng;
+use crate::util::{bits_eq, next_down, next_up, par_for, EPS};
+use ivp::error::{Error, InterpolationError};
+use ivp::prelude::*;
+use serde_json::json;
+
+/// rounding bound for a state value at a step end: K eps (|y| + |h f|) per component, as a ratio
+fn round_ratio(got: &[f64], want: &[f64], hf: &[f64]) -> f64 {
+    let mut r: f64 = 0.0;
+    for i in 0..got.len() {
+        let d = (got[i] - want[i]).abs();
+        let den = EPS * (want[i].abs() + hf[i].abs());
+        if d == 0.0 {
+            continue;
+        }
+        if den == 0.0 {
+            return f64::INFINITY;
+        }
+        r = r.max(d / den);
+    }
+    r
+}
+
 pub fn run(ctx: &Ctx) -> (Report, Meta) {
-    (Report::new(&ctx.prop), Meta::new("not built yet"))
+    let k_round = 64.0;
+    let meta = Meta::new(
+        "(a) low-level builders with a recording SolOut on bounded and discontinuous problems (forcing rejections), 6 methods, both directions, tolerances, max_step clamps: for every accepted step the interpolant handed to the callback is evaluated at both step ends and compared with the previous and the new state; steps following a rejection and BDF order changes are counted; (b) solve_ivp with dense_output: sol(t_i) vs stored samples, sol/sol_many succeed on the covered span (stored times, midpoints, boundaries +-1 ulp, span ends, random interior) and return OutOfRange clearly outside, sol_span contains x0 and the last reported time, NotEnabled when disabled, zero-length run, runs ended by terminal events and step budgets; non-trivial = run with >= 3 segments (distinct by scenario hash)",
+    )
+    .assume("rounding bound for endpoint identities: 64 eps (|y| + (|h|+|t|) |f|) componentwise (the |t||f| term is the effect of one ulp of the evaluation time) (calibrated: worst observed on the unchanged tree is recorded in worst_observed)")
+    .thresholds(json!({"endpoint_rounding_factor": k_round, "clearly_outside": "1e-9*span + 1e-9"}))
+    .floor("callback_interpolants_checked", 5000)
+    .floor("steps_after_rejection_checked", 100)
+    .floor("bdf_order_changes_seen", 20)
+    .floor("sol_evaluations_inside_span", 5000)
+    .floor("out_of_range_probes", 500)
+    .floor("not_enabled_probes", 100);
+
+    // ---------------- (a) low level ----------------
+    let nlow = ctx.size(6_000, 200_000);
+    let g = GenOpts { allow_max_step: true, bidirectional_problems: true, ..Default::default() };
+    let rep = par_for(nlow, "C06", |i, rep| {
+        let case_id = format!("low/{}", i);
+        if !ctx.want(&case_id) {
+            return;
+        }
+        let mut rng = Rng::derive(ctx.seed, 6, i as u64);
+        let (mut prob, mut scn) = gen_case(&mut rng, &g);
+        if i % 3 == 0 {
+            // discontinuous forcing / sharp transients => rejections (forward only: damped)
+            prob = if rng.bool() { Simple::Disc { w: rng.range(1.0, 5.0) } } else { Simple::VdP { mu: rng.range(1.0, 4.0) } };
+            scn.y0 = prob.y0(&mut rng);
+            let span = (scn.xend - scn.x0).abs();
+            scn.xend = scn.x0 + span;
+            scn.rtol = Tol::S(scn.rtol.at(0));
+            scn.atol = Tol::S(scn.atol.at(0));
+        }
+        let m = mname(scn.method);
+        let mut probe = Probe::new(&prob, scn.x0);
+        probe.user_jac = scn.user_jac;
+        probe.budget = 600_000;
+        let lo = LowOpts { dense: true, max_step: scn.max_step, ..Default::default() };
+        let mut so = RecSolOut::new(Some(&probe));
+        so.thetas = vec![0.0, 1.0];
+        so.keep_seg = scn.method == Method::BDF;
+        let out = run_low_guarded(scn.method, &probe, scn.x0, &scn.y0, scn.xend, &scn.rtol, &scn.atol, &lo, &mut so);
+        rep.eval();
+        let case = scn.describe(&prob);
+        match out {
+            LowOutcome::Budget => {
+                rep.inconclusive("evaluation_budget_exhausted");
+                return;
+            }
+            LowOutcome::Err(_) => {
+                rep.count("config_errors_returned", 1);
+                return;
+            }
+            LowOutcome::Panic(msg) => {
+                rep.violate(&format!("C06/no_panic/{}/low_level", m), format!("panic: {}", msg), &case_id, case);
+                return;
+            }
+            LowOutcome::Ok(_) => {}
+        }
+        let n = scn.y0.len();
+        let stage_calls: u64 = match scn.method {
+            Method::RK4 => 4,
+            Method::RK23 => 3,
+            Method::DOPRI5 => 6,
+            Method::DOP853 => 15,
+            _ => 0,
+        };
+        if so.cbs.len() >= 4 {
+            rep.nontrivial(scn_hash(&scn, &prob));
+        }
+        let mut prev_order: Option<f64> = None;
+        for k in 1..so.cbs.len() {
+            let cb = &so.cbs[k];
+            let pv = &so.cbs[k - 1];
+            if !cb.has_interp {
+                rep.violate(&format!("C06/interpolant_missing/{}/low_level", m), format!("callback {} received no interpolant although dense output is enabled", k), &case_id, case.clone());
+                break;
+            }
+            let h = cb.x - cb.xold;
+            let mut f_old = vec![0.0; n];
+            let mut f_new = vec![0.0; n];
+            prob.f(cb.xold, &pv.y_after, &mut f_old);
+            prob.f(cb.x, &cb.y, &mut f_new);
+            let hf_old: Vec<f64> = f_old.iter().map(|v| v * (h.abs() + cb.xold.abs().max(cb.x.abs()))).collect();
+            let hf_new: Vec<f64> = f_new.iter().map(|v| v * (h.abs() + cb.xold.abs().max(cb.x.abs()))).collect();
+            let r_left = round_ratio(&cb.interp[0], &pv.y_after, &hf_old);
+            let r_right = round_ratio(&cb.interp[1], &cb.y, &hf_new);
+            rep.count("callback_interpolants_checked", 1);
+            rep.worst(&format!("endpoint_left_ratio_{}", m), r_left);
+            rep.worst(&format!("endpoint_right_ratio_{}", m), r_right);
+            let after_rej = stage_calls > 0 && cb.calls_at_entry - pv.calls_at_entry > stage_calls + if scn.method == Method::DOP853 { 1 } else { 0 };
+            if after_rej {
+                rep.count("steps_after_rejection_checked", 1);
+            }
+            if is_implicit(scn.method) && cb.calls_at_entry - pv.calls_at_entry > 12 {
+                rep.count("steps_after_rejection_checked", 1);
+            }
+            let mut cls = "regular";
+            if scn.method == Method::BDF && !cb.cont.is_empty() {
+                let ord = cb.cont[6];
+                if let Some(po) = prev_order {
+                    if po != ord {
+                        rep.count("bdf_order_changes_seen", 1);
+                        cls = "after_order_change";
+                    }
+                }
+                prev_order = Some(ord);
+            }
+            if r_left > k_round {
+                rep.violate(
+                    &format!("C06/interpolant_left_end/{}/{}", m, cls),
+                    format!("step {} [{:e},{:e}]: interpolant at the left end differs from the previous state by {:.1} x eps(|y|+|hf|) (got {:?}, state {:?})", k, cb.xold, cb.x, r_left, cb.interp[0], pv.y_after),
+                    &case_id,
+                    case.clone(),
+                );
+                break;
+            }
+            if r_right > k_round {
+                rep.violate(
+                    &format!("C06/interpolant_right_end/{}/{}", m, cls),
+                    format!("step {} [{:e},{:e}]: interpolant at the right end differs from the new state by {:.1} x eps(|y|+|hf|)", k, cb.xold, cb.x, r_right),
+                    &case_id,
+                    case.clone(),
+                );
+                break;
+            }
+            // the interpolant must describe this very step
+            if let Some((ix, ih)) = cb.step_params {
+                let st = rt_slack(scn.method, cb.xold, cb.x, 4) * 4.0;
+                if (ix - cb.xold).abs() > st || (ix + ih - cb.x).abs() > st {
+                    rep.violate(
+                        &format!("C06/interpolant_interval/{}/{}", m, cls),
+                        format!("callback interval is [{:e},{:e}] but the interpolant covers [{:e},{:e}]", cb.xold, cb.x, ix, ix + ih),
+                        &case_id,
+                        case.clone(),
+                    );
+                    break;
+                }
+            }
+        }
+        if i % 499 == 0 {
+            rep.sample(json!({"api": "low_level", "scenario": case, "callbacks": so.cbs.len()}));
+        }
+    });
+
+    // ---------------- (b) solve_ivp ----------------
+    let nhi = ctx.size(6_000, 200_000);
+    let g2 = GenOpts {
+        allow_max_step: true,
+        allow_max_steps: true,
+        allow_events: true,
+        allow_terminal: true,
+        allow_first_step: true,
+        bidirectional_problems: true,
+        ..Default::default()
+    };
+    let rep2 = par_for(nhi, "C06", |i, rep| {
+        let case_id = format!("sol/{}", i);
+        if !ctx.want(&case_id) {
+            return;
+        }
+        let mut rng = Rng::derive(ctx.seed, 66, i as u64);
+        let (prob, mut scn) = gen_case(&mut rng, &g2);
+        let m = mname(scn.method);
+        scn.t_eval = None;
+        let zero_len = i % 53 == 0;
+        if zero_len {
+            scn.xend = scn.x0;
+            scn.events.clear();
+        }
+        // dense disabled one time in five: NotEnabled
+        scn.dense = i % 5 != 0;
+        let res = run_solve(&prob, &scn, false, false);
+        rep.eval();
+        let case = scn.describe(&prob);
+        let sol = match &res.out {
+            Outcome::Ok(s) => s,
+            Outcome::Budget => {
+                rep.inconclusive("evaluation_budget_exhausted");
+                return;
+            }
+            Outcome::Err(_) => {
+                rep.count("config_errors_returned", 1);
+                return;
+            }
+            Outcome::Panic(msg) => {
+                rep.violate(&format!("C06/no_panic/{}/solve_ivp", m), format!("panic: {}", msg), &case_id, case);
+                return;
+            }
+        };
+        if !scn.dense {
+            rep.count("not_enabled_probes", 1);
+            let t = sol.t.first().copied().unwrap_or(scn.x0);
+            let e1 = sol.sol(t);
+            let e2 = sol.sol_many(&[t]);
+            let ok1 = matches!(e1, Err(Error::Interpolation(InterpolationError::NotEnabled)));
+            let ok2 = matches!(e2, Err(Error::Interpolation(InterpolationError::NotEnabled)));
+            if !ok1 || !ok2 || sol.sol_span().is_some() {
+                rep.violate(&format!("C06/not_enabled/{}/dense_off", m), format!("dense output disabled but sol -> {:?}, sol_span -> {:?}", e1.map(|v| v.len()), sol.sol_span()), &case_id, case);
+            }
+            return;
+        }
+        if zero_len {
+            rep.count("zero_length_runs", 1);
+            match sol.sol(scn.x0) {
+                Ok(v) if bits_eq(&v, &scn.y0) => {}
+                other => rep.violate(&format!("C06/zero_length/{}/dense_on", m), format!("zero-length run: sol(x0) = {:?}, y0 = {:?}", other, scn.y0), &case_id, case),
+            }
+            return;
+        }
+        if sol.t.len() < 2 {
+            rep.inconclusive("fewer_than_two_samples");
+            return;
+        }
+        let cls = if sol.status == Status::Success { "success" } else if sol.status == Status::UserInterrupt { "terminal" } else { "early_stop" };
+        let Some((a, b)) = sol.sol_span() else {
+            rep.violate(&format!("C06/span_missing/{}/{}", m, cls), "dense output enabled but sol_span() is None".into(), &case_id, case);
+            return;
+        };
+        let (lo, hi) = (a.min(b), a.max(b));
+        let tl = *sol.t.last().unwrap();
+        let rt = rt_slack(scn.method, scn.x0, tl, sol.t.len()) * 2.0;
+        if scn.x0 < lo - rt || scn.x0 > hi + rt || tl < lo - rt || tl > hi + rt {
+            rep.violate(&format!("C06/span_covers_samples/{}/{}", m, cls), format!("sol_span = ({:e},{:e}) does not contain x0 = {:e} and the last reported time {:e}", a, b, scn.x0, tl), &case_id, case.clone());
+            return;
+        }
+        if sol.t.len() >= 4 {
+            rep.nontrivial(scn_hash(&scn, &prob));
+        }
+        let n = scn.y0.len();
+        let span = hi - lo;
+        // inside: stored times, midpoints, +-1ulp around boundaries, ends, random
+        let mut inside: Vec<f64> = Vec::new();
+        for w in sol.t.windows(2) {
+            inside.push(w[0]);
+            inside.push(0.5 * (w[0] + w[1]));
+            inside.push(next_up(w[0]).min(hi));
+            inside.push(next_down(w[0]).max(lo));
+        }
+        inside.push(tl);
+        inside.push(lo);
+        inside.push(hi);
+        for _ in 0..6 {
+            inside.push(lo + span * rng.f());
+        }
+        inside.retain(|t| *t >= lo && *t <= hi);
+        if inside.len() > 240 {
+            // long runs: keep a random subset (find_segment is a linear scan)
+            let mut keep = Vec::with_capacity(240);
+            for _ in 0..240 {
+                keep.push(inside[rng.below(inside.len())]);
+            }
+            inside = keep;
+        }
+        for &t in &inside {
+            rep.count("sol_evaluations_inside_span", 1);
+            match sol.sol(t) {
+                Ok(v) if v.len() == n => {}
+                other => {
+                    rep.violate(&format!("C06/sol_fails_inside_span/{}/{}", m, cls), format!("sol({:e}) inside sol_span ({:e},{:e}) -> {:?}", t, a, b, other.map(|v| v.len())), &case_id, case.clone());
+                    return;
+                }
+            }
+        }
+        // sol_many agrees with sol
+        if let Ok(many) = sol.sol_many(&inside) {
+            for (k, &t) in inside.iter().enumerate() {
+                if !bits_eq(&many[k], &sol.sol(t).unwrap()) {
+                    rep.violate(&format!("C06/sol_many_differs/{}/{}", m, cls), format!("sol_many and sol differ at t = {:e}", t), &case_id, case.clone());
+                    break;
+                }
+            }
+        } else {
+            rep.violate(&format!("C06/sol_fails_inside_span/{}/{}", m, cls), "sol_many failed on points inside the span".into(), &case_id, case.clone());
+        }
+        // stored samples reproduced (terminal event point included)
+        let first_step_games = scn.first_step.is_some();
+        let stride = (sol.t.len() / 150).max(1);
+        for k in (0..sol.t.len()).filter(|k| k % stride == 0 || *k + 2 >= sol.t.len() || *k < 2) {
+            let t = sol.t[k];
+            let v = sol.sol(t).unwrap();
+            let h = if k + 1 < sol.t.len() { sol.t[k + 1] - t } else { t - sol.t[k - 1] };
+            let h2 = if k > 0 { t - sol.t[k - 1] } else { h };
+            let hh = h.abs().max(h2.abs());
+            let mut f = vec![0.0; n];
+            prob.f(t, &sol.y[k], &mut f);
+            let hf: Vec<f64> = f.iter().map(|x| x * (hh + t.abs())).collect();
+            let r = round_ratio(&v, &sol.y[k], &hf);
+            rep.worst(&format!("sample_reproduction_ratio_{}", m), r);
+            rep.count("samples_reproduced_checked", 1);
+            if r > k_round && !(first_step_games && k == 1) {
+                rep.violate(
+                    &format!("C06/sample_reproduction/{}/{}", m, cls),
+                    format!("sol(t[{}]={:e}) differs from the stored sample by {:.1} x eps(|y|+|hf|): {:?} vs {:?}", k, t, r, v, sol.y[k]),
+                    &case_id,
+                    case.clone(),
+                );
+                break;
+            }
+        }
+        // clearly outside
+        let margin = 1e-9 * span + 1e-9;
+        for &t in &[lo - 1.5 * margin, hi + 1.5 * margin, lo - span - 1.0, hi + 10.0 * span + 1.0] {
+            rep.count("out_of_range_probes", 1);
+            match sol.sol(t) {
+                Err(Error::Interpolation(InterpolationError::OutOfRange { .. })) => {}
+                other => {
+                    rep.violate(&format!("C06/out_of_range_accepted/{}/{}", m, cls), format!("sol({:e}) clearly outside sol_span ({:e},{:e}) -> {:?}", t, a, b, other.map(|v| v.len())), &case_id, case.clone());
+                    break;
+                }
+            }
+            if !matches!(sol.sol_many(&[0.5 * (lo + hi), t]), Err(Error::Interpolation(InterpolationError::OutOfRange { .. }))) {
+                rep.violate(&format!("C06/out_of_range_accepted/{}/{}", m, cls), format!("sol_many with one time {:e} clearly outside the span did not return OutOfRange", t), &case_id, case.clone());
+                break;
+            }
+        }
+        if i % 499 == 0 {
+            rep.sample(json!({"api": "solve_ivp", "scenario": case, "segments": sol.t.len() - 1, "sol_span": [a, b]}));
+        }
+    });
+    let mut rep = rep;
+    rep.merge(rep2);
+    (rep, meta)
 }
